@@ -446,6 +446,12 @@ class DiscriminatedUnionUnpackerBuilder(AbstractUnpackerBuilder):
                     )
         else:
             with lines.indent(f"for variant in {variants}:"):
+                if spec.builder.is_nailed:
+                    # a variant must use its own unpacker, not the one
+                    # it inherits from an already compiled parent
+                    self._add_build_variant_unpacker(
+                        spec, lines, variant_method_name, variant_method_call
+                    )
                 with lines.indent("try:"):
                     if spec.builder.is_nailed:
                         lines.append(f"return variant.{variant_method_call}")
@@ -454,14 +460,14 @@ class DiscriminatedUnionUnpackerBuilder(AbstractUnpackerBuilder):
                             f"return {spec.attrs_registry_name}"
                             f"[variant].{variant_method_call}"
                         )
-                if spec.builder.is_nailed:
-                    exc_to_catch = "AttributeError"
-                else:
-                    exc_to_catch = "(KeyError, AttributeError)"
-                with lines.indent(f"except {exc_to_catch}:"):
-                    self._add_build_variant_unpacker(
-                        spec, lines, variant_method_name, variant_method_call
-                    )
+                if not spec.builder.is_nailed:
+                    with lines.indent("except (KeyError, AttributeError):"):
+                        self._add_build_variant_unpacker(
+                            spec,
+                            lines,
+                            variant_method_name,
+                            variant_method_call,
+                        )
                 lines.append("except Exception: pass")
             lines.append(
                 f"raise SuitableVariantNotFoundError({variants_type_expr}) "
@@ -503,10 +509,6 @@ class DiscriminatedUnionUnpackerBuilder(AbstractUnpackerBuilder):
                     "default_dialect=_default_dialect)"
                     ".add_unpack_method()"
                 )
-                if not self.discriminator.field:
-                    with lines.indent("try:"):
-                        lines.append(f"return variant.{variant_method_call}")
-                    lines.append("except Exception: pass")
         else:
             spec.builder.ensure_object_imported(AttrsHolder)
             attrs = f"attrs_{random_hex()}"
